@@ -31,6 +31,16 @@ CLAIMS = {
         text="Tens of thousands of generated source trees and prior destinations (independent trees over a colliding name pool, or 1-5 model edits of the source; fresh, dirty and merge mode; on-disk and synthetic sources; differ metadata/none; owner-rewriting filter; stream capacities 0-64) are synchronised with the real sender and receiver; the destination is then observed with the harness's own lstat/readlink/xattr/sha256 walker and compared two-directionally with the model (path set, types, bytes, 12 mode bits, owner, link targets, device numbers, hard-link partition, ns mtimes, xattrs; merge: overlay with survivors inode-identical). Sampled, no proof.",
         note="Privileged receiver on tmpfs; the unprivileged-receiver configuration of the quantifier is not exercised yet. Files with equal identity are given equal bytes (precondition of identity-based differencing). Error returns are counted, not judged (C04).",
         ref="4 C01"),
+    "C02": dict(
+        technique="rapid-generated edit histories (stateful: sync, edit, re-sync ...) against the real Send/Receive; oracle = harness-side identity function over announced STATs and an independent snapshot, REQ log mapped through the STAT index",
+        text="Thousands of histories (initial tree, then up to 4 rounds of 0-4 model edits of 16 kinds followed by a re-sync, differ metadata or none, with and without an owner-rewriting filter, on-disk and synthetic sources) are run through the real pair. For every re-sync the set of content requests observed on the wire must equal the set of regular non-link entries whose identity key (computed by the harness from the statement) differs or that are new; equal-key entries must keep inode, bytes, mode, owner and mtime; directories are updated in place; an all-equal re-sync must produce zero requests and zero notifications; the final state must equal the source. Sampled, no proof.",
+        note="The timing-dependent hard-link exception of the statement is modelled as a 'may' set (old link members whose named first member is deleted or replaced). tmpfs, privileged.",
+        ref="4 C02"),
+    "C05": dict(
+        technique="rapid-generated edit histories; oracle = replay of the notification log on a model of the old destination + harness identity function + digests recomputed from the STAT log and bytes read back",
+        text="The same histories as C02 (differ=metadata) are run with NotifyHashed and a header-seeded ContentHasher. Each sync's notification log is replayed on the old destination's path set and must yield the new one; every changed or new path must be reported exactly once with the metadata as sent; unchanged paths must not be reported; delete events must be exactly the top-most removed paths; each digest must equal H(header of the stat as sent || bytes now stored). Sampled, no proof.",
+        note="add and modify are both treated as 'set entry' (the statement does not require them to be told apart). Merge mode and differ=none are outside C05.",
+        ref="4 C05"),
 }
 
 NOT_YET = "check not built yet in this round (planned, see DESIGN.md section 9)"
